@@ -719,6 +719,7 @@ impl Check for FireCheck {
         run.set("distractors", rng.below(3) as i64);
         run.set("aux_rule", rng.chance(1, 3) as i64);
         run.set("crate_rewrite", rng.chance(1, 2) as i64);
+        run.set("warm_rules", Rng::stream(seed, "warm").chance(1, 4) as i64);
         let mut f = Rng::stream(seed, "faults");
         if f.chance(1, 2) {
             run.set("hash_seed", (f.next() >> 1) as i64 | 1);
@@ -796,7 +797,7 @@ impl Check for FireCheck {
         let mode = run.get("plant_mode").rem_euclid(4);
         let pv = vars.get(run.get("plant_var").rem_euclid(vars.len().max(1) as i64) as usize).copied();
         let mut root_term: Tm = li.clone();
-        let planted = catch_op(|| {
+        let plant = |s: &mut Sess<LS, ()>, root_term: &mut Tm| {
             // distractors first
             for d in 0..run.get("distractors").rem_euclid(3) {
                 let t = Tm::node("b", vec![], vec![(vec![], Tm::leaf("p2", vec![20, 21])), (vec![], Tm::pay("k", d as u32))]);
@@ -812,7 +813,7 @@ impl Check for FireCheck {
                     sub2.insert(v, tau2.clone());
                     let l2 = l.inst(&sub2).rename_keep_binders(&rho);
                     s.add_term(&l2, false);
-                    root_term = l2.clone();
+                    *root_term = l2.clone();
                     let a = tau.rename_keep_binders(&rho);
                     let b = tau2.rename_keep_binders(&rho);
                     s.union_terms(&a, &b, true, false);
@@ -829,7 +830,7 @@ impl Check for FireCheck {
                             let sw = tau.rename_keep_binders(&m);
                             let l3 = inst_with_override(&l, &sub, v, 1, &sw, &mut 0).rename_keep_binders(&rho);
                             s.add_term(&l3, false);
-                            root_term = l3.clone();
+                            *root_term = l3.clone();
                             let a = tau.rename_keep_binders(&rho);
                             let b = sw.rename_keep_binders(&rho);
                             s.union_terms(&a, &b, true, false);
@@ -858,12 +859,23 @@ impl Check for FireCheck {
             for e in 0..run.get("root_extra").rem_euclid(3) {
                 let fs = root_term.free_vec();
                 let other = fs.iter().fold(Tm::pay("k", 20 + e as u32), |acc, x| Tm::node("g", vec![*x], vec![(vec![], acc)]));
-                s.union_terms(&root_term, &other, true, false);
+                s.union_terms(&*root_term, &other, true, false);
             }
             if run.get("probes") != 0 {
-                run_probes(&mut s, run.get("hash_seed"), 7);
+                run_probes(s, run.get("hash_seed"), 7);
             }
-        });
+        };
+        // a second e-graph planted in the same way: the rules are applied to it first, i.e. one Rewrite
+        // value serves two e-graphs (rules are usually defined once and used for many e-graphs)
+        let mut decoy: Option<Sess<LS, ()>> = None;
+        if run.get("warm_rules") != 0 {
+            let mut d: Sess<LS, ()> = Sess::new(EGraph::new(()), run.get("naming") as u32);
+            let mut rt = li.clone();
+            if catch_op(|| plant(&mut d, &mut rt)).is_ok() {
+                decoy = Some(d);
+            }
+        }
+        let planted = catch_op(|| plant(&mut s, &mut root_term));
         if planted.is_err() {
             out.discarded = Some("panic".into());
             return out;
@@ -956,6 +968,13 @@ impl Check for FireCheck {
             out.discarded = Some("instance_not_present".into());
             return out;
         };
+        if let Some(d) = decoy.as_mut() {
+            if catch_op(|| apply_rewrites(&mut d.eg, &rules)).is_err() {
+                out.discarded = Some("panic_in_rewrite".into());
+                return out;
+            }
+            out.bump("rules_reused_across_egraphs");
+        }
         if catch_op(|| apply_rewrites(&mut s.eg, &rules)).is_err() {
             out.discarded = Some("panic_in_rewrite".into());
             return out;
